@@ -5,6 +5,7 @@ import Ysshra.Drv.Serve
 import Ysshra.Drv.Cond
 import Ysshra.Drv.Shim
 import Ysshra.Drv.Gensign
+import Ysshra.Drv.Crypki
 /-
 `ymodel`: the executable models and specification predicates behind a line protocol.
   in : id \t op \t arg… [\t ## \t implementation-output…]
@@ -15,7 +16,7 @@ Core-only imports (links as a `lean_exe`).
 open Ysshra Ysshra.IO Ysshra.Drv
 
 def handlers : List (String → List String → Option (List String) → Option Reply) :=
-  [handleCodec, handleMsg, handleAttest, handleServe, handleCond, handleShim, handleGensign]
+  [handleCodec, handleMsg, handleAttest, handleServe, handleCond, handleShim, handleGensign, handleCrypki]
 
 def dispatch (op : String) (args : List String) (impl : Option (List String)) : Reply :=
   match handlers.findSome? (fun h => h op args impl) with
